@@ -281,6 +281,12 @@ func (c *FnCtx) havoc(st *State, ms *modSet, hint string) {
 		}
 		if _, ok := st.heap[k]; ok {
 			c.havocHeapKey(st, k)
+		} else if srt, ok := c.sortOfHeapKey(k); ok {
+			// a heap that this path has not read yet: it still has to become a new version, or a later read would see
+			// the entry heap again (and "modified" would silently mean "unchanged")
+			base := c.heapGet(st, k, srt)
+			_ = base
+			c.havocHeapKey(st, k)
 		}
 		for hk := range st.heap {
 			if strings.HasPrefix(hk, k+".") {
@@ -653,4 +659,46 @@ func (c *FnCtx) execLoopRange(st *State, x *ast.RangeStmt, label string, cond fu
 	c.rangeIdx[x] = idx
 	c.rangeLen[x] = n
 	return c.execLoop(st, x, label, x.Body, cond, body, post)
+}
+
+// sortOfHeapKey finds the element sort of a field heap "pkg.Type.field[.sub...]" from the type information (used to
+// materialise heaps that a frame or a loop modifies before the path has read them).
+func (c *FnCtx) sortOfHeapKey(k string) (Sort, bool) {
+	if strings.HasPrefix(k, "ptr.") || strings.HasPrefix(k, "map.") || strings.HasPrefix(k, "*.") {
+		return "", false
+	}
+	parts := strings.Split(k, ".")
+	if len(parts) < 3 {
+		return "", false
+	}
+	pk := c.V.pkgs[parts[0]]
+	if pk == nil || pk.Types == nil {
+		return "", false
+	}
+	o := pk.Types.Scope().Lookup(parts[1])
+	if o == nil {
+		return "", false
+	}
+	t := o.Type()
+	for _, fn := range parts[2:] {
+		stt, _ := structOf(t)
+		if stt == nil {
+			return "", false
+		}
+		var ft types.Type
+		for i := 0; i < stt.NumFields(); i++ {
+			if stt.Field(i).Name() == fn {
+				ft = stt.Field(i).Type()
+			}
+		}
+		if ft == nil {
+			return "", false
+		}
+		t = ft
+	}
+	srt := c.sortOf(t)
+	if srt == SNone {
+		return "", false
+	}
+	return srt, true
 }
